@@ -45,7 +45,20 @@ class C15(Check):
             "ReadTimeout) and / or the consumer of the channel pauses between items (also longer than ReadTimeout): every "
             "composition of an AXFR, an AXFR-style IXFR and a difference-sequence stream, TSIG off / on, uniform, "
             "per-envelope and random patterns, ReadTimeout 80 / 120 ms, left zero (2 s default) and above the default "
-            "(3 s), verdict independent of scheduling. A case is the "
+            "(3 s), verdict independent of scheduling; transfers over a caller-supplied DATAGRAM connection (a "
+            "net.PacketConn in Transfer.Conn, every envelope one datagram without length prefix: IXFR over UDP, RFC 1995): "
+            "every composition of small AXFR / IXFR streams, up to date, TSIG off / on, faults at every envelope (ID, "
+            "RCODE, nothing more arrives, non-SOA / empty first, tamper, unsigned, wrong secret, MAC cut, drop, swap, "
+            "duplicate), zones of records of every type, and answer datagrams of exactly L octets for every L from the "
+            "smallest up to 1600, both sides of every power of two up to 32768, around 1232 / 1452 / 1472 / 65507 and "
+            "65533..65535, sampled lengths in between, as the only / first / middle / last / every datagram, "
+            "Conn.UDPSize unset and set below, at and above the datagram length; the query must be one datagram holding "
+            "the message; TSIG key and algorithm names spelled in lower, upper and mixed case (key name in TsigSecret and "
+            "SetTsig, algorithm name in SetTsig, both on the wire from the peer echoed or in yet another spelling), five "
+            "algorithms: the query written by Transfer.In must verify under the harness's own RFC 8945 verifier (names in "
+            "canonical form in the digest), chains signed by the harness's own signer must be delivered exactly and an "
+            "altered envelope of such a chain must end the transfer, Transfer.Out in a dns.Server must accept a request "
+            "signed that way and write envelopes that verify. A case is the "
             "(kind, tsig, query, read list) tuple; "
             "non-trivial when at least two reads; distinct by hash of (function, arguments, output).")
     partial = [
